@@ -42,7 +42,9 @@ def workdir_for(plan, tag=''):
         # crash images are written and re-read thousands of times: keep them in memory-backed scratch
         base = os.path.join('/dev/shm', 'verif-' + os.path.basename(os.path.dirname(base)) , 'rec')
         os.makedirs(base, exist_ok=True)
-    d = os.path.join(base, f"{plan.get('run_seed', 0):016x}{tag}")
+    # (the process id keeps two workers apart that execute plans with the same run_seed at the same time: two
+    # pinned histories minimised from the same run did, and failed one run in a few)
+    d = os.path.join(base, f"{plan.get('run_seed', 0):016x}-{os.getpid()}{tag}")
     shutil.rmtree(d, ignore_errors=True)
     os.makedirs(d)
     return d
